@@ -38,6 +38,7 @@ LUA51 = {
 
 LUA52 = {
     "goto": "goto done\ndo\n\tgoto continue\n\t::continue::\nend\n::done::\nfor i = 1, 3 do\n\tif i == 2 then goto next end\n\tprint(i)\n\t::next::\nend\n",
+    "goto-function-body": "local f = function() goto done end\ncall(function() goto done end)\nfunction g() goto done end\n::done::\n",
     "goto-guard": "while true do\n\tif a then goto out end\nend\n::out::\n",
     "escapes": "x = '\\x41\\z\n   b'\nx = \"\\z  c\"\n",
 }
